@@ -242,6 +242,11 @@ class Driver:
 
 
 # ------------------------------------------------------------------ oracle on the implementation
+def where_blocked(run, t):
+    w = run.away_where.get(t)
+    return f" (blocked for real in {w}: a wait the scheduler cannot see)" if w else ""
+
+
 def oracle(run, cfg):
     """The property itself, checked on one execution of the real hub.
     cfg is the int-keyed configuration; run is the finished hub_sched.Run.
@@ -307,7 +312,8 @@ def oracle(run, cfg):
             i = res[r][-1][0]
             kind = cfg[r]["ops"][i][0]
             if kind == "recv" and left:
-                bad.append(("blocked", f"thread {r} blocked in recv with {left} queued"))
+                bad.append(("blocked", f"blocking receive does not return although a message is queued: thread {r} "
+                                       f"blocked in recv with {left} queued" + where_blocked(run, r)))
     # an endpoint whose receive callback is registered in the hub at the end (it is listening in callback mode) and
     # that never disconnected must have nothing left in its queue (also after a switch of use_callbacks)
     if run.end_reason in ("done", "quiescent"):
@@ -329,9 +335,9 @@ def oracle(run, cfg):
         if run.status[t] == "blocked" and run.end_reason == "quiescent":
             i = res[t][-1][0]
             if th["ops"][i][0] == "connect" and tuple(rkey(th["key"])) in final_open:
-                bad.append(("blocked", f"thread {t} blocked in connect although the peer is open"))
+                bad.append(("blocked", f"thread {t} blocked in connect although the peer is open" + where_blocked(run, t)))
             if th["ops"][i][0] not in ("connect", "recv"):
-                bad.append(("blocked", f"thread {t} blocked in {th['ops'][i][0]}"))
+                bad.append(("blocked", f"thread {t} blocked in {th['ops'][i][0]}" + where_blocked(run, t)))
     # rendezvous: connect returns only after the peer has opened (and that opening is not used up)
     log = run.log
     for t, th in enumerate(cfg):
@@ -464,5 +470,6 @@ def oracle_bcast(run, cfg):
                 bad.append(("bcast-exactly-once", f"node {me}: received {show(got)} + queued {show(left)} != sent by node {b} {show(sent)}"))
             elif blocked_in_recv and left:
                 bad.append(("bcast-listening", f"node {me} (thread {t}) is still blocked in its receive although "
-                                               f"{show(left)} from node {b} is pending in the hub: it will never be received"))
+                                               f"{show(left)} from node {b} is pending in the hub: it will never be received"
+                                               + where_blocked(run, t)))
     return bad
